@@ -307,6 +307,33 @@ func cmdReport(args []string) {
 			}
 		}
 	})
+	// exactly ONE optional metric defined (every metric, every defined value), at both higher levels: a report that
+	// takes a short cut for "nothing defined" must notice the one that is
+	{
+		k := 0
+		for i := 8; i < v3N; i++ {
+			for c := 1; c < len(v3Defs[i].Codes); c++ {
+				var v v3Vec
+				v3SetFromIndex(&v, 0, v3NBase, (k*37+5)%nb)
+				v[i] = uint8(c)
+				for _, lvl := range []byte{'T', 'E'} {
+					if lvl == 'T' && i >= 11 {
+						continue
+					}
+					upto := map[byte]int{'T': 11, 'E': 22}[lvl]
+					for _, omit := range []uint32{xMask(&v, 8, upto), 0} {
+						s := v3Join(v3Versions[k%2].Label, v3Tokens(&v, upto, omit))
+						for _, ln := range []string{"en", "ja"} {
+							if ev := buildRepEvent(lvl, ln, s); ev != nil {
+								recs[0].Add(evBody(ev), "report.New* with exactly one optional metric defined")
+							}
+						}
+					}
+				}
+				k++
+			}
+		}
+	}
 	parallelFor(*n, workers, func(w, i int) {
 		rng := newRand(8000 + i)
 		// neighbouring metrics differ wherever their code sets allow, so that a field wired
